@@ -13,7 +13,7 @@ INFO = {
     'rule': 'one case = one event history; non-trivial = a failure or invalid reply was delivered on it',
     'functions': ['pl.schedule.organize', 'pl.schedule.next_job_batch', 'pl.schedule.complete', 'pl.schedule.update', 'pl.schedule.purge',
                   'pl.schedule.find', 'pl.schedule.view_todo', 'pl.schedule.view_doing', 'pl.farm.dispatch', 'pl.farm._put', 'pl.farm.Hand._res', 'pl.farm.Hand.do', 'pl.farm.crew', 'pl.farm.rerunid', 'pl.dag.Construct (graph construction)'],
-    'bounds': {'quick': 'shapes G2,G5,G7,G8,G9; histories of <=4 events (<=5 on G2)', 'thorough': 'shapes G2..G9,G11; <=6 events (<=5 on 4-node shapes)'},
+    'bounds': {'quick': 'shapes G2,G5,G7,G8,G9; histories of <=4 events (<=5 on G2)', 'thorough': 'shapes G2..G9,G11; histories of <=5 events (+ directed late-reply family with 3 free events)'},
     'assumptions': [
         'algorithm engine = in-memory classes registered through the real dawgie.base.Factories (SynthAE)',
         'dawgie.db.targets/next, chronicle.append, context.fsm (always active), context.dumps replaced by in-process fakes',
@@ -28,9 +28,7 @@ QUICK = ['G2', 'G5', 'G7', 'G8', 'G9']
 THOROUGH = ['G2', 'G3', 'G4', 'G5', 'G6', 'G7', 'G8', 'G9', 'G11']
 KQ = {s: 4 for s in QUICK}
 KQ['G2'] = 5
-KT = {s: 6 for s in THOROUGH}
-KT['G7'] = 5
-KT['G11'] = 5
+KT = {s: 5 for s in THOROUGH}
 DRAIN = False
 
 
